@@ -88,6 +88,8 @@ def main(argv):
         print("ANALYSIS-ERROR property=%s %s" % (pid, e))
         return core.EXIT_ANALYSIS
     except core.AnalysisError as e:
+        if os.environ.get("XFAB_TRACE"):
+            traceback.print_exc()
         # rule instances decided before the unreadable construct stand: a definite violation is still a violation
         known = {k["key"] for k in core.load_known().get("known", []) if k.get("property") == pid}
         if any(f["key"] not in known for f in ctx.fails):
